@@ -480,3 +480,143 @@ theorem foldKey_class (l : Lim) (k : Key) (rs : List Rec) (h : ∀ r ∈ rs, r.W
       | ident hi => exact .ident (fun x => by rw [hstep, hi])
 
 end Iora.Kv
+
+namespace Iora.Kv
+open Iora
+
+/-! ## `goodEnd` counts every complete frame, whatever the frame holds -/
+
+/-- the length of the longest prefix of `d` made of complete frames `[totalLen:4][totalLen bytes]` with an admissible
+`totalLen` — defined without looking at CRCs, op letters, keys or the replayed state -/
+def framesLen (l : Lim) (d : Bytes) : Nat :=
+  if h4 : d.length < 4 then 0
+  else
+    let total := leNat (d.take 4)
+    if total < l.ldMin ∨ total > l.ldMax then 0
+    else if (d.drop 4).length < total then 0
+    else 4 + total + framesLen l ((d.drop 4).drop total)
+termination_by d.length
+decreasing_by simp only [List.length_drop]; omega
+
+/-- `goodEnd` is advanced by every record that was read completely — also by one the replay then skips (CRC mismatch, unknown
+op letter, bad inner lengths, orphan 'X', implausible expiry): it does not depend on `crc`, on the parse or on the state -/
+theorem replayLoop_goodEnd (l : Lim) (crc : Bytes → UInt32) (d : Bytes) :
+    ∀ (st : LState) (off : Nat), (replayLoop l crc d st off).2 = off + framesLen l d := by
+  induction hn : d.length using Nat.strongRecOn generalizing d with
+  | _ n ih =>
+    intro st off
+    rw [replayLoop, framesLen]
+    by_cases h4 : d.length < 4
+    · simp [h4]
+    · simp only [h4, ↓reduceDIte]
+      by_cases hb : leNat (d.take 4) < l.ldMin ∨ leNat (d.take 4) > l.ldMax
+      · simp [hb]
+      · simp only [hb, ↓reduceIte]
+        by_cases hs : (d.drop 4).length < leNat (d.take 4)
+        · rw [if_pos hs, if_pos hs]; rfl
+        · rw [if_neg hs, if_neg hs]
+          have hlt : ((d.drop 4).drop (leNat (d.take 4))).length < n := by
+            simp only [List.length_drop]; omega
+          rw [ih _ hlt _ rfl]
+          omega
+
+/-- a frame: any body of admissible length behind its length prefix -/
+def frame (b : Bytes) : Bytes := le32 b.length ++ b
+
+theorem framesLen_frame (l : Lim) (hl : l.OK) (b rest : Bytes) (h1 : l.ldMin ≤ b.length) (h2 : b.length ≤ l.ldMax) :
+    framesLen l (frame b ++ rest) = 4 + b.length + framesLen l rest := by
+  rw [framesLen]
+  have h32 : b.length < 2 ^ 32 := by have := hl.u32; omega
+  have hlen : ¬ (frame b ++ rest).length < 4 := by simp [frame]
+  simp only [hlen, ↓reduceDIte]
+  have htake : (frame b ++ rest).take 4 = le32 b.length := by
+    simp only [frame, List.append_assoc]; exact take_append_len _ _ 4 rfl
+  have hdrop : (frame b ++ rest).drop 4 = b ++ rest := by
+    simp only [frame, List.append_assoc]; exact drop_append_len _ _ 4 rfl
+  rw [htake, hdrop, leNat_le32' _ h32]
+  have c1 : ¬ (b.length < l.ldMin ∨ b.length > l.ldMax) := by omega
+  have c2 : ¬ (b ++ rest).length < b.length := by simp
+  simp only [c1, c2, ↓reduceIte]
+  rw [drop_append_len _ _ _ rfl]
+
+theorem framesLen_frames (l : Lim) (hl : l.OK) (bs : List Bytes) (h : ∀ b ∈ bs, l.ldMin ≤ b.length ∧ b.length ≤ l.ldMax) (rest : Bytes) :
+    framesLen l (bs.flatMap frame ++ rest) = (bs.flatMap frame).length + framesLen l rest := by
+  induction bs with
+  | nil => simp
+  | cons b r ih =>
+    simp only [List.flatMap_cons, List.append_assoc]
+    rw [framesLen_frame l hl b _ (h b (by simp)).1 (h b (by simp)).2, ih (fun x hx => h x (by simp [hx]))]
+    simp [frame]; omega
+
+/-- a strict prefix of one more frame is not counted -/
+theorem framesLen_torn (l : Lim) (hl : l.OK) (b p q : Bytes) (h1 : l.ldMin ≤ b.length) (h2 : b.length ≤ l.ldMax)
+    (hpq : p ++ q = frame b) (hq : q ≠ []) : framesLen l p = 0 := by
+  rw [framesLen]
+  by_cases h4 : p.length < 4
+  · simp [h4]
+  · simp only [h4, ↓reduceDIte]
+    have h32 : b.length < 2 ^ 32 := by have := hl.u32; omega
+    have hlen : p.length + q.length = 4 + b.length := by
+      have := congrArg List.length hpq
+      simpa [frame] using this
+    have hqpos : 0 < q.length := by
+      cases q with
+      | nil => exact absurd rfl hq
+      | cons a c => simp
+    have htake : p.take 4 = le32 b.length := by
+      have : (p ++ q).take 4 = p.take 4 := by rw [List.take_append_of_le_length (by omega)]
+      rw [← this, hpq]
+      simp only [frame]; exact take_append_len _ _ 4 rfl
+    rw [htake, leNat_le32' _ h32]
+    have c1 : ¬ (b.length < l.ldMin ∨ b.length > l.ldMax) := by omega
+    have c2 : (p.drop 4).length < b.length := by simp only [List.length_drop]; omega
+    simp only [c1, c2, ↓reduceIte]
+
+end Iora.Kv
+
+namespace Iora.Kv
+open Iora
+
+theorem framesLen_le (l : Lim) (d : Bytes) : framesLen l d ≤ d.length := by
+  induction hn : d.length using Nat.strongRecOn generalizing d with
+  | _ n ih =>
+    rw [framesLen]
+    by_cases h4 : d.length < 4
+    · simp [h4]
+    · simp only [h4, ↓reduceDIte]
+      split
+      · omega
+      · split
+        · omega
+        · rename_i hs
+          have hlt : ((d.drop 4).drop (leNat (d.take 4))).length < n := by
+            simp only [List.length_drop]; omega
+          have := ih _ hlt _ rfl
+          simp only [List.length_drop] at this hs
+          omega
+
+/-- what follows the counted prefix does not start with a complete frame -/
+theorem framesLen_drop (l : Lim) (d : Bytes) : framesLen l (d.drop (framesLen l d)) = 0 := by
+  induction hn : d.length using Nat.strongRecOn generalizing d with
+  | _ n ih =>
+    by_cases h4 : d.length < 4
+    · have h0 : framesLen l d = 0 := by rw [framesLen]; simp [h4]
+      rw [h0, List.drop_zero, h0]
+    · by_cases hb : leNat (d.take 4) < l.ldMin ∨ leNat (d.take 4) > l.ldMax
+      · have h0 : framesLen l d = 0 := by rw [framesLen]; simp [h4, hb]
+        rw [h0, List.drop_zero, h0]
+      · by_cases hs : (d.drop 4).length < leNat (d.take 4)
+        · have h0 : framesLen l d = 0 := by rw [framesLen]; simp only [h4, ↓reduceDIte, hb, ↓reduceIte]; rw [if_pos hs]
+          rw [h0, List.drop_zero, h0]
+        · have h1 : framesLen l d = 4 + leNat (d.take 4) + framesLen l ((d.drop 4).drop (leNat (d.take 4))) := by
+            rw [framesLen]; simp only [h4, ↓reduceDIte, hb, ↓reduceIte]; rw [if_neg hs]
+          have hlt : ((d.drop 4).drop (leNat (d.take 4))).length < n := by
+            simp only [List.length_drop]; omega
+          have := ih _ hlt _ rfl
+          rw [h1]
+          have e : d.drop (4 + leNat (d.take 4) + framesLen l ((d.drop 4).drop (leNat (d.take 4))))
+              = ((d.drop 4).drop (leNat (d.take 4))).drop (framesLen l ((d.drop 4).drop (leNat (d.take 4)))) := by
+            simp only [List.drop_drop]
+          rw [e]; exact this
+
+end Iora.Kv
